@@ -185,23 +185,23 @@ func build(race bool) string {
 }
 
 type found struct {
-	Property    string   `json:"property"`
-	Clause      string   `json:"clause"`
-	Detail      string   `json:"detail"`
-	World       string   `json:"world"`
-	Seed        uint64   `json:"seed"`
-	RunIndex    uint64   `json:"run_index"`
-	Trace       []uint32 `json:"trace"`
-	OrigLen     int      `json:"original_trace_len"`
-	ShrinkTests int      `json:"shrink_tests"`
-	Log         []string `json:"log"`
-	LogHash     string   `json:"log_hash"`
-	Case        any      `json:"case,omitempty"`
-	Hang        bool     `json:"hang,omitempty"`
-	Sequence    bool     `json:"sequence,omitempty"`
-	SeqWorker   int      `json:"sequence_worker,omitempty"`
-	SeqWorkers  int      `json:"sequence_workers,omitempty"`
-	SeqRuns     int      `json:"sequence_runs,omitempty"`
+	Property    string     `json:"property"`
+	Clause      string     `json:"clause"`
+	Detail      string     `json:"detail"`
+	World       string     `json:"world"`
+	Seed        uint64     `json:"seed"`
+	RunIndex    uint64     `json:"run_index"`
+	Trace       [][]uint32 `json:"trace"`
+	OrigLen     int        `json:"original_trace_len"`
+	ShrinkTests int        `json:"shrink_tests"`
+	Log         []string   `json:"log"`
+	LogHash     string     `json:"log_hash"`
+	Case        any        `json:"case,omitempty"`
+	Hang        bool       `json:"hang,omitempty"`
+	Sequence    bool       `json:"sequence,omitempty"`
+	SeqWorker   int        `json:"sequence_worker,omitempty"`
+	SeqWorkers  int        `json:"sequence_workers,omitempty"`
+	SeqRuns     int        `json:"sequence_runs,omitempty"`
 }
 
 type workerResult struct {
@@ -485,7 +485,7 @@ func check(prop, tr string) int {
 		"build_s":                   buildS,
 	}
 	if first != nil {
-		cov["violation"] = map[string]any{"clause": first.Clause, "detail": first.Detail, "replay": replayPath, "trace_len": len(first.Trace), "original_trace_len": first.OrigLen}
+		cov["violation"] = map[string]any{"clause": first.Clause, "detail": first.Detail, "replay": replayPath, "trace_len": traceLen(first.Trace), "original_trace_len": first.OrigLen}
 	}
 	ev := map[string]any{
 		"property_id": prop,
@@ -529,7 +529,16 @@ func check(prop, tr string) int {
 	}
 	if first != nil {
 		fmt.Printf("violation: %s/%s: %s\n", first.Property, first.Clause, first.Detail)
-		fmt.Printf("minimised trace: %d choices (from %d, %d shrink runs)\n", len(first.Trace), first.OrigLen, first.ShrinkTests)
+		nz := 0
+		for _, st := range first.Trace {
+			for _, v := range st {
+				if v != 0 {
+					nz++
+				}
+			}
+		}
+		fmt.Printf("minimised trace: %d choices, %d of them non-zero (from %d choices, %d shrink runs); streams: generation %d, scheduling %d, select/map orders %d, I/O chunking %d\n",
+			traceLen(first.Trace), nz, first.OrigLen, first.ShrinkTests, streamLen(first.Trace, 0), streamLen(first.Trace, 1), streamLen(first.Trace, 2), streamLen(first.Trace, 3))
 		if replayNote != "" {
 			fmt.Println(replayNote)
 		}
@@ -547,6 +556,21 @@ func check(prop, tr string) int {
 	}
 	fmt.Printf("OK property=%s held on everything explored\n", prop)
 	return 0
+}
+
+func streamLen(t [][]uint32, i int) int {
+	if i < len(t) {
+		return len(t[i])
+	}
+	return 0
+}
+
+func traceLen(t [][]uint32) int {
+	n := 0
+	for _, s := range t {
+		n += len(s)
+	}
+	return n
 }
 
 func maxf(a, b float64) float64 {
